@@ -781,8 +781,12 @@ class Facts:
         self.units = unit_facts
         self.funcs = []
         seen = set()
+        from . import refnames as _rn
         for u in unit_facts:
             for f in u.get("functions", []):
+                if not f.get("_canon"):
+                    f["_canon"] = 1
+                    _rn.canonicalise(f)
                 key = (f["id"], f.get("l"))
                 if key in seen:
                     continue
